@@ -40,6 +40,10 @@ typedef Eigen::Matrix<CLD, Eigen::Dynamic, Eigen::Dynamic> CMatL;
 typedef Eigen::Matrix<CLD, Eigen::Dynamic, 1> CVecL;
 typedef long long ll;
 
+// heap observations (filled by the driver's main, see alloc_guard.h)
+static long long g_heap_live = 0;
+static volatile long long* g_heap_overruns_ptr = NULL;
+
 // ---------------------------------------------------------------- quantiser
 // q(x) = round(16*log2(x)), clamped to +-32000; QZERO for exact zero, QNAN for NaN/Inf.
 static const ll QZERO = -32768;
